@@ -275,7 +275,7 @@ def mdp_table_laws(sx, sdom, adom):
 
 
 def jobs(tier):
-    o = dict(timeout_ms=15000, budget_s=(300 if tier == 'quick' else 600))
+    o = dict(timeout_ms=15000, budget_s=(120 if tier == 'quick' else 600))
     nd = len(DOMS)
     for f in range(nd):
         yield ('table_laws', dict(fields=[f]), o)
